@@ -13,7 +13,7 @@ use vcore::gen::{self, StreamCfg};
 use vcore::rt::{self, digest_str, esc, Acc, Args, Report};
 use vcore::vt::{self, St};
 
-const RULE: &str = "A case is (colour choice, sink kind, constructor, operation sequence). Operation sequences of 0..30 ops from {write, write_all, write_vectored, write! with 1..3 fragments, write!/writeln! whose format string is a bare literal (35 escape-rich literals), write! with char-typed arguments, write! of a Display that uses Formatter::write_char / write_str / nested write! / write_fmt, flush}; data also with one printable run of 64..200 KiB; write_vectored also with no buffers at all or only empty ones over data from G-STREAM cut at generated offsets (also inside escape sequences and multi-byte characters); choices {Auto, AlwaysAnsi, Always, Never} (Auto under two pinned environments: NO_COLOR=1 and CLICOLOR_FORCE=1); sinks {Vec<u8>, Box<dyn Write>, &mut Vec<u8>, File}. Oracle: Never => sink == what a StripStream<Vec<u8>> fed the same ops holds (same return values) == strip(bytes reported consumed); AlwaysAnsi/Always => sink == bytes reported consumed; current_choice reports the mode in force; into_inner returns exactly what was delivered; to_adapted_string strips or forwards according to the stream's choice. lock(): on the standard streams (child process, pipes) a write, lock(), write sequence delivers what the unlocked stream delivers. Non-trivial = at least two different write-family calls and an op boundary inside an escape sequence (distinct by case).";
+const RULE: &str = "A case is (colour choice, sink kind, constructor, operation sequence). Operation sequences of 0..30 ops from {write, write_all, write_vectored, write! with 1..3 fragments, write!/writeln! whose format string is a bare literal (35 escape-rich literals), write! with char-typed arguments, write! of a Display that uses Formatter::write_char / write_str / nested write! / write_fmt, flush}; data also with one printable run of 64..200 KiB; write_vectored also with no buffers at all or only empty ones over data from G-STREAM cut at generated offsets (also inside escape sequences and multi-byte characters); choices {Auto, AlwaysAnsi, Always, Never} (Auto under two pinned environments: NO_COLOR=1 and CLICOLOR_FORCE=1); sinks {Vec<u8>, Box<dyn Write>, &mut Vec<u8>, File, anstream::Buffer, Box<Vec<u8>>, Box<dyn Write + Send>, Box<File>}. Oracle: Never => sink == what a StripStream<Vec<u8>> fed the same ops holds (same return values) == strip(bytes reported consumed); AlwaysAnsi/Always => sink == bytes reported consumed; current_choice reports the mode in force; into_inner returns exactly what was delivered; to_adapted_string strips or forwards according to the stream's choice. lock(): on the standard streams (child process, pipes) a write, lock(), write sequence delivers what the unlocked stream delivers. Non-trivial = at least two different write-family calls and an op boundary inside an escape sequence (distinct by case).";
 
 #[derive(Clone, Debug, Serialize, Deserialize, PartialEq)]
 enum Op {
@@ -36,7 +36,7 @@ enum Op {
 struct Case {
     /// 0 Auto, 1 AlwaysAnsi, 2 Always, 3 Never
     choice: u8,
-    /// 0 Vec, 1 Box<dyn Write>, 2 &mut Vec, 3 File
+    /// 0 Vec, 1 Box<dyn Write>, 2 &mut Vec, 3 File, 4 anstream::Buffer, 5 Box<Vec>, 6 Box<dyn Write + Send>, 7 Box<File>
     sink: u8,
     /// construct through AutoStream::new instead of the named constructor
     via_new: bool,
@@ -59,6 +59,17 @@ struct Shared(Rc<RefCell<Vec<u8>>>);
 impl Write for Shared {
     fn write(&mut self, buf: &[u8]) -> std::io::Result<usize> {
         self.0.borrow_mut().extend_from_slice(buf);
+        Ok(buf.len())
+    }
+    fn flush(&mut self) -> std::io::Result<()> {
+        Ok(())
+    }
+}
+
+struct SendShared(std::sync::Arc<std::sync::Mutex<Vec<u8>>>);
+impl Write for SendShared {
+    fn write(&mut self, buf: &[u8]) -> std::io::Result<usize> {
+        self.0.lock().unwrap().extend_from_slice(buf);
         Ok(buf.len())
     }
     fn flush(&mut self) -> std::io::Result<()> {
@@ -262,10 +273,38 @@ fn check_case(case: &Case) -> Result<bool, String> {
             let o = drive(build(&mut v, case), strips, &case.ops, None, |_| Ok(vec![]))?;
             Outcome { delivered: v, ..o }
         }
-        _ => {
+        4 => {
+            #[allow(deprecated)]
+            let raw = anstream::Buffer::new();
+            #[allow(deprecated)]
+            let fin = |b: anstream::Buffer| Ok(b.as_bytes().to_vec());
+            drive(build(raw, case), strips, &case.ops, None, fin)?
+        }
+        5 => {
+            let raw: Box<Vec<u8>> = Box::new(Vec::new());
+            drive(build(raw, case), strips, &case.ops, None, |b| Ok(*b))?
+        }
+        6 => {
+            let handle = std::sync::Arc::new(std::sync::Mutex::new(Vec::new()));
+            let raw: Box<dyn Write + Send> = Box::new(SendShared(handle.clone()));
+            drive(build(raw, case), strips, &case.ops, None, move |_| Ok(handle.lock().unwrap().clone()))?
+        }
+        3 => {
             let path = rt::tmp_dir().join(format!("c08-{}-{:?}.bin", std::process::id(), std::thread::current().id()));
             let f = std::fs::OpenOptions::new().create(true).truncate(true).read(true).write(true).open(&path).map_err(|e| format!("tmp file: {e}"))?;
             let r = drive(build(f, case), strips, &case.ops, None, |mut f| {
+                let mut v = Vec::new();
+                f.rewind().and_then(|_| f.read_to_end(&mut v)).map_err(|e| format!("read back: {e}"))?;
+                Ok(v)
+            });
+            let _ = std::fs::remove_file(&path);
+            r?
+        }
+        _ => {
+            // a boxed file
+            let path = rt::tmp_dir().join(format!("c08b-{}-{:?}.bin", std::process::id(), std::thread::current().id()));
+            let f = std::fs::OpenOptions::new().create(true).truncate(true).read(true).write(true).open(&path).map_err(|e| format!("tmp file: {e}"))?;
+            let r = drive(build(Box::new(f), case), strips, &case.ops, None, |mut f: Box<std::fs::File>| {
                 let mut v = Vec::new();
                 f.rewind().and_then(|_| f.read_to_end(&mut v)).map_err(|e| format!("read back: {e}"))?;
                 Ok(v)
@@ -323,7 +362,7 @@ fn check_case(case: &Case) -> Result<bool, String> {
 fn arb_case(no_color: bool, huge: bool) -> impl Strategy<Value = Case> {
     (
         0u8..4,
-        prop_oneof![3 => Just(0u8), 3 => Just(1u8), 2 => Just(2u8), 1 => Just(3u8)],
+        prop_oneof![3 => Just(0u8), 3 => Just(1u8), 2 => Just(2u8), 1 => Just(3u8), 1 => Just(4u8), 1 => Just(5u8), 1 => Just(6u8), 1 => Just(7u8)],
         any::<bool>(),
         prop_oneof![gen::stream(StreamCfg { max_items: if huge { 6 } else { 14 }, ..StreamCfg::ALL }), gen::stream(StreamCfg { max_items: if huge { 6 } else { 14 }, ..StreamCfg::UTF8 })],
         proptest::collection::vec((any::<u16>(), 0u8..15, any::<u16>()), 0..if huge { 4 } else { 30 }),
@@ -400,7 +439,7 @@ fn run(args: &Args, rep: &mut Report) {
         rep.add(
             name,
             false,
-            "0..30 ops over G-STREAM data x 4 choices x 4 sinks x 2 constructors",
+            "0..30 ops over G-STREAM data x 4 choices x 8 sinks x 2 constructors",
             prop_par(
                 name,
                 args.seed,
@@ -408,7 +447,7 @@ fn run(args: &Args, rep: &mut Report) {
                 move || arb_case(no_color, false),
                 |case, acc: &mut Acc| {
                     acc.class(&format!("choice-{:?}", choice_of(case.choice)));
-                    acc.class(["sink-Vec", "sink-BoxDyn", "sink-&mut Vec", "sink-File"][case.sink as usize]);
+                    acc.class(["sink-Vec", "sink-BoxDyn", "sink-&mut Vec", "sink-File", "sink-Buffer", "sink-Box<Vec>", "sink-BoxDynSend", "sink-Box<File>"][case.sink as usize & 7]);
                     match check_case(case) {
                         Ok(nt) => Verdict::ok(nt.then(|| digest_str(&serde_json::to_string(case).unwrap()))),
                         Err(m) => Verdict { result: Err(m), nontrivial: None },
